@@ -45,7 +45,10 @@ def gen_deck(rng):
     if m < 0.13:
         # a plane of the deck's own where the auxiliary union planes usually go, and unions that need them
         return G.aux_plane_deck(rng)
-    if m < 0.2:
+    if m < 0.21:
+        # a very long intersection: interpreter-wide settings a conversion might touch (recursion limit) must not leak
+        return G.deep_cell_deck(rng)
+    if m < 0.27:
         # surfaces referred to as seen from a cell with a TRCL (1000*cell+surface): generated, hence commented, surfaces
         from . import c04
         return c04.implicit_deck(rng)[0]
@@ -222,7 +225,7 @@ def run_case(stream, seed, ctx, params):
                           % (len(others), diff), {'stream': 'history', 'class': 'history-dependent'},
                           dict(replay, others=others)))
     # this worker process has a long history of earlier conversions: compare with a fresh interpreter now and then
-    if (seed % 6 == 0 or sib_first) and r1.ok:
+    if (seed % 6 == 0 or sib_first or getattr(d, '_always_fresh', False)) and r1.ok:
         f = strip_header(fresh(text, args, 0))
         if not f.startswith('SUBPROCESS FAILED') and f != a:
             diff = [(x, y) for x, y in zip(f.splitlines(), a.splitlines()) if x != y][:2] or [('length', len(f), len(a))]
